@@ -348,7 +348,7 @@ func buildC03Corpus() *c03Corpus {
 
 // realFrame: the IPv4+UDP frame nclient4's own writer emits for payload.
 func realFrame(payload []byte, dstPort int) []byte {
-	sc := &scriptConn{}
+	sc := &c03ScriptConn{}
 	conn := nclient4.NewBroadcastUDPConn(sc, &net.UDPAddr{IP: net.IP{10, 0, 0, 1}, Port: 67})
 	conn.WriteTo(payload, &net.UDPAddr{IP: net.IP{255, 255, 255, 255}, Port: dstPort})
 	if len(sc.wrote) == 0 {
